@@ -76,3 +76,21 @@ reg('C14', 'exploration',
     'missing any d is inconclusive); component lists of 2..5 parts of 16 and 24 bytes with every permutation and a duplicated '
     'component; KCV lengths 1..16; encrypted zone keys under 16/24-byte master keys.',
     'Trusts vmon/ref/crypto.py and vmon/ref/cards.py; cryptography is used only to search for plaintexts, never to judge.')
+
+reg('C01', 'exploration',
+    'runtime monitor: real dumps/loads round trip observed over generated configurations, 72 single-byte codecs, both bitmap renderings and length sweeps; relation checked on every returned dict',
+    'Single-element messages at every boundary length (thorough: every length 1..99 / 1..999) of every variable element, every '
+    'element alone with numeric extremes and date-window edges, and seeded subsets (PDS keys, raw carriers, ICC, DE43, PAN '
+    'processors, bits above 64) under the packaged configuration, variants of it and generated configurations; quick uses 8 '
+    'codecs, thorough every single-byte codec of the standard library. Every original key must come back equal (masked / '
+    'prefix for PAN processors) with only documented derived extras. Held on the executions produced.',
+    'Trusts the message domain definition in DESIGN.md section 4 and the python codecs.')
+
+reg('C02', 'exploration',
+    'runtime monitor: real dumps compared byte-for-byte with an independent reference encoder, real loads of reference-encoded bytes compared key-for-key with a strict reference decoder, refusal of over-long values observed',
+    'Every single bit and every pair of bits of the packaged configuration x {latin_1, cp500} x {raw, hex} is enumerated; the '
+    'C01 workload is reused and widened on the encode side (short fixed text, numbers as strings, ISO date strings, empty/None '
+    'values). Decode is judged on bytes produced by the reference encoder so a symmetric error cannot cancel. Over-long '
+    'variable values (100..999 / 1000..5000 characters, text and bytes) must be refused while the longest representable '
+    'value still encodes. Held on the executions produced.',
+    'Trusts vmon/ref/codec.py (validated at setup against the wire images pinned by the repository tests), python codecs, re, strptime.')
